@@ -386,6 +386,36 @@ func (ci *consumerInfo) edgeConsumes(pred, succ *ssa.BasicBlock) bool {
 			}
 			continue
 		}
+		// `ok = p.a()` on one path, `ok = p.b()` on the other, then `if !ok`: whichever call was made has failed
+		if phi, isPhi := f.Cond.(*ssa.Phi); isPhi && !f.Holds && ci.failPoint != nil {
+			all := len(phi.Edges) > 0
+			for _, e := range phi.Edges {
+				if k, isK := e.(*ssa.Const); isK && k.Value != nil && k.Value.String() == "true" {
+					continue
+				}
+				if vc := verdictCall(e); vc == nil || !ci.failPoint(vc) {
+					all = false
+				}
+			}
+			if all {
+				return true
+			}
+		}
+		if phi, isPhi := f.Cond.(*ssa.Phi); isPhi && f.Holds {
+			all := len(phi.Edges) > 0
+			for _, e := range phi.Edges {
+				if k, isK := e.(*ssa.Const); isK && k.Value != nil && k.Value.String() == "false" {
+					continue
+				}
+				vc := verdictCall(e)
+				if vc == nil || !(ci.okPoint(vc) || ci.allCallees(vc, func(fn *ssa.Function) bool { return ci.onOK[fn] })) {
+					all = false
+				}
+			}
+			if all {
+				return true // whichever call was made has succeeded
+			}
+		}
 		switch c := f.Cond.(type) {
 		case *ssa.BinOp:
 			if c.Op != token.EQL && c.Op != token.NEQ {
